@@ -444,7 +444,10 @@ class C18(Prop):
           'keywords); late binding on the functor object between construction and call (rebind / setattr / del of '
           'named parameters, of **kwargs entries and of the *args list) combined with every call-time form; '
           'class-based functors nested as members of class-based functors sharing member names, where the outer '
-          '_call READS the inner members, CALLS the inner functor, reads again, also from a second thread. '
+          '_call READS the inner members, CALLS the inner functor, reads again, also from a second thread; '
+          'class-based functors whose _call RAISES on a poisoned argument (caller or outer functor catches), followed '
+          'by member reads, a rebind and further calls on the same object; call-time keywords named like the *args '
+          'parameter (scalar, falsy, empty and non-empty list values) for signatures with and without **kwargs. '
           'Non-trivial: at least one argument is '
           'supplied and the signature has at least one parameter; distinct: by the whole case.')
   trusted_base = [
